@@ -474,7 +474,8 @@ inductive Found where
   | cls (c : ClassDecl) (nsPath : List String) (nsEnums : List String)
   | func (tmpl : Option Template) (ret : RetType) (name : String) (args : List Arg) (nsPath : List String)
   | fwd (isVirtual : Bool) (tn : Typename) (nsPath : List String)
-  | instantiated          -- an already instantiated class/function/declaration (not supported by the model)
+  | ifunc (f : IFunc)     -- an already instantiated function (found by its instantiated name)
+  | instantiated          -- an already instantiated class/declaration (not supported by the model)
 
 def enumNamesM : List MDecl → List String
   | [] => []
@@ -492,7 +493,7 @@ def candidatesM (name : String) (path : List String) (es : List String) : List M
 def candidatesI (name : String) (path : List String) : List IDecl → List Found
   | [] => []
   | .cls c :: r => (if c.name == name then [Found.instantiated] else []) ++ candidatesI name path r
-  | .func f :: r => (if f.name == name then [Found.instantiated] else []) ++ candidatesI name path r
+  | .func f :: r => (if f.name == name then [Found.ifunc f] else []) ++ candidatesI name path r
   | .decl d :: r => (if d.name == name then [Found.instantiated] else []) ++ candidatesI name path r
   | .fwd v tn _ :: r => (if tn.name == name then [Found.fwd v tn path] else []) ++ candidatesI name path r
   | _ :: r => candidatesI name path r
@@ -570,6 +571,10 @@ def instTypedef (F : TyInst) (root : List MDecl) (tn : Typename) (newName : Stri
   | .func t r n as p => do let f ← instFunc F t r n as p tn.insts newName; pure [.func f]
   | .fwd v ftn p =>
     pure [.decl ⟨if newName.isEmpty then instName ftn.name tn.insts else newName, ftn.name, tn.insts, v, p⟩]
+  | .ifunc f =>
+    -- `InstantiatedGlobalFunction(original=<instantiated function>, …)`: `original.template` is '' there, so the
+    -- original's name, return type and arguments are taken over unchanged
+    pure [.func { f with origName := f.name, hasTmpl := false, insts := tn.insts }]
   | .instantiated => throw .lookup
 
 /-- `instantiate_namespace` for the namespace at index path `ip` (names `nsPath`), threading the
